@@ -343,7 +343,7 @@ fn worker_main() -> ! {
     mcx::install_quiet_panic_hook();
     let cpu_limit_us: u64 = std::env::var("VERIF_C06_CPU_MS").ok().and_then(|s| s.parse::<u64>().ok()).unwrap_or(1000) * 1000;
     unsafe {
-        sys::signal(sys::SIGUSR1, sys::park_forever as usize);
+        sys::signal(sys::SIGUSR1, sys::park_forever as *const () as usize);
     }
     // wall-clock guard against a wedged worker (never a verdict: SIGTERM is a machinery error for the explorer)
     static PROGRESS: AtomicU64 = AtomicU64::new(0);
@@ -661,7 +661,7 @@ fn main() {
         Err(e) => mcx::machinery(&e),
     }
     let th = ctx.thorough();
-    let ex = Explorer { ctx: &ctx, confirmed: AtomicU64::new(0), unjudged: AtomicU64::new(0), kills: AtomicU64::new(0), kill_budget: if th { 150_000 } else { 40_000 } };
+    let ex = Explorer { ctx: &ctx, confirmed: AtomicU64::new(0), unjudged: AtomicU64::new(0), kills: AtomicU64::new(0), kill_budget: if th { 40_000 } else { 15_000 } };
     if let Some(c) = ctx.replay_case() {
         let case: Case = serde_json::from_value(c.clone()).unwrap_or_else(|e| mcx::machinery(&format!("bad case: {e}")));
         let mut slot = None;
@@ -715,7 +715,7 @@ fn main() {
         json!({
             "brick alphabet": "Top, or string set = any subset of {\"\",a,b,ab} with (min,max) in {(0,0),(0,1),(1,1),(0,2),(1,2),(2,2),(1,3),(0,inf),(1,inf)}, inf = u32::MAX: 145 bricks",
             "normalize": format!("every list of <= {max_len} bricks: {n_lists} values"),
-            "merge/append/widen": format!("all ordered pairs of {nf} values: Top, all lists of <= 1 brick ({}), all 2-brick lists over a reduced alphabet", if th { "full alphabet" } else { "8 string sets x 9 (min,max)" }),
+            "merge/append/widen": format!("all ordered pairs of {nf} values: Top, all lists of <= 1 brick ({}), all 2-brick lists over a reduced alphabet ({})", if th { "full alphabet" } else { "8 string sets x 9 (min,max) + Top" }, if th { "Top + string sets {},{a},{b},{a,b},{\"\",a} x (0,0),(0,1),(1,1),(1,2),(2,2),(0,inf)" } else { "Top + string sets {a},{b},{a,b} x (0,1),(1,1),(0,inf)" }),
             "character inclusion": "all 36 values over {a,b,c} (certain ⊆ possible, possible may be Top, plus Top): all ordered pairs for merge and append; From<String> for all 40 strings of length <= 3",
             "concretisation": "all 127 strings of length <= 6 over {a,b}",
         }),
